@@ -374,6 +374,7 @@ func areaCff(c *Ctx) {
 	c13GenStrings(c, n/20+1)
 	c13GenEncodingBoundary(c)
 	c13GenOffsetSweep(c)
+	c13GenRealBoundary(c)
 }
 
 // mutate returns a damaged copy of data (truncation, bit flip, byte overwrite, count inflation).
@@ -2731,5 +2732,125 @@ func c13GenOffsetSweep(c *Ctx) {
 		a := r.Range(1, 127)
 		b := r.Range(0, 40)
 		emit([5]int{a, total - a - b, b, 0, 0}, nFD, r.Intn(3), "window 32767/32768")
+	}
+}
+
+// ---------------------------------------------------------------------------------------
+// reals at the edges of the nine-digit mantissa (seeded change C13-r4m1)
+
+// c13RealCase: a decimal 0.<digits>e<l> (at most nine digits: exact for the model) through the encoder,
+// the decoder and the spec decoder
+func c13RealCase(c *Ctx, digits string, l int, neg bool, label string) {
+	sign := ""
+	if neg {
+		sign = "-"
+	}
+	s := strings.TrimRight(digits, "0")
+	text := fmt.Sprintf("r%s%se%d", sign, digits, l)
+	want := fmt.Sprintf("r%s%se%d", sign, s, l-len(s))
+	c.Stat("real_boundary", label)
+	out := c.Case(Verdict, "cff.real.enc", "x="+text, true)
+	if strings.HasPrefix(out, "panic") {
+		return
+	}
+	res := c.Case(Verdict, "cff.real.dec", "data="+out, true)
+	if strings.HasPrefix(res, "ok:"+want+";") {
+		c.Stat("real_boundary_read_back", "same")
+	} else {
+		c.Stat("real_boundary_read_back", "DIFFERENT")
+	}
+	c.Case(Direct, "cff.dict.specdec", fmt.Sprintf("data=1e%s11 custom= want=ok:17:%s", out, want), true)
+}
+
+// c13RoundCase: more than nine digits; the expected value is the decimal rounding to nine digits
+func c13RoundCase(c *Ctx, digits string, l int, neg bool, label string) {
+	sign := ""
+	if neg {
+		sign = "-"
+	}
+	x, err := strconv.ParseFloat(sign+"0."+digits+"e"+strconv.Itoa(l), 64)
+	if err != nil || x == 0 || math.IsInf(x, 0) {
+		return
+	}
+	head, _ := strconv.Atoi(digits[:9])
+	if digits[9] >= '5' {
+		head++
+	}
+	ll := l
+	if head == 1000000000 {
+		head = 100000000
+		ll++
+	}
+	hs := strings.TrimRight(strconv.Itoa(head), "0")
+	want := fmt.Sprintf("r%s%se%d", sign, hs, ll-len(hs))
+	c.Stat("real_boundary", label)
+	enc := cff.VerifEncodeFloat(x)
+	c.Case(Direct, "cff.dict.specdec", fmt.Sprintf("data=1e%s11 custom= want=ok:17:%s", hx(enc), want), true)
+}
+
+func c13GenRealBoundary(c *Ctx) {
+	r := c.Rng
+	thorough := c.Tier == "thorough"
+	exact := []string{"999999999", "999999998", "999999990", "99999999", "9999999", "999", "9", "99", "100000000", "100000001",
+		"100000009", "1", "10000001", "199999999", "899999999", "989999999", "999999989", "500000000", "499999999"}
+	exps := []int{-9, -8, -3, -2, -1, 0, 1, 2, 3, 4, 8, 9, 10, 11, 12}
+	for l := -40; l <= 40; l++ {
+		exps = append(exps, l)
+	}
+	exps = append(exps, -290, -200, -100, 100, 200, 290)
+	for _, d := range exact {
+		for _, l := range exps {
+			if !thorough && len(d) < 9 && d != "9" && !r.Chance(1, 4) {
+				continue
+			}
+			if !thorough && (l < -12 || l > 12) && !r.Chance(1, 3) {
+				continue
+			}
+			c13RealCase(c, d, l, r.Chance(1, 3), "exact "+d)
+		}
+	}
+	// values that round to 10^9 or just below it, and to 10^8 or just above it (no exact ties)
+	rounding := []string{"9999999996", "9999999994", "99999999951", "99999999949", "999999999501", "999999999499", "9999999989",
+		"1000000004", "1000000006", "10000000049", "10000000051", "9999999986", "99999999899"}
+	for _, d := range rounding {
+		for l := -20; l <= 20; l++ {
+			if !thorough && (l < -10 || l > 10) && !r.Chance(1, 3) {
+				continue
+			}
+			c13RoundCase(c, d, l, r.Chance(1, 3), "rounds "+d)
+		}
+	}
+	// whole fonts: every real-valued operand at an all-nines (and a 10^8) mantissa
+	type rv struct{ angle, hw, vw, bscale, ul, m float64 }
+	vals := []rv{
+		{-9.99999999, 99.9999999, 999.999999, 0.0999999999, -99.9999999, 0.0999999999},
+		{9.99999998, 99.9999998, 9.99999999, 0.00999999999, -9.99999999, 0.00999999998},
+		{99.9999999, 0.999999999, 9999.99999, 0.999999999, -999.999999, 0.999999999},
+		{-1.00000001, 10.0000001, 100.000001, 0.0100000001, -100.000001, 0.0100000001},
+		{-0.999999999, 9.99999999, 99.9999999, 0.0999999998, -0.999999999, 0.0000999999999},
+	}
+	for vi, v := range vals {
+		for _, nFD := range []int{0, 2} {
+			f := c13SweepFont(r, [5]int{6 + vi, 3, 0, 0, 0}, nFD, 2)
+			f.angle = v.angle
+			// (the description carries the underline as an exact binary fraction: a dyadic value here; the
+			// all-nines mantissas go through the same encodeFloat in the other operands)
+			f.ulPos = -99.5 - float64(vi)
+			f.ulThick = 49.75
+			// (matrices within 1e-5 of the default are not written: keep away from 0.001 and from the identity)
+			top := v.m
+			if nFD > 0 && math.Abs(top-1) < 0.01 {
+				top = 9.99999999
+			}
+			f.fm = [6]float64{top, 0, 0, top, 0, 0}
+			for p := range f.privs {
+				f.privs[p].hw, f.privs[p].vw, f.privs[p].bscale = v.hw, v.vw, v.bscale
+				if f.isCID {
+					f.fms[p] = [6]float64{v.m, 0, 0, v.m, v.ul, 0}
+				}
+			}
+			c.Stat("real_boundary", "whole font")
+			c13EmitFont(c, f, true)
+		}
 	}
 }
